@@ -31,7 +31,7 @@ CLAIMED = {
         "DESIGN.md §4 C05",
     ),
     "C06": (
-        "Adversary enumeration plus random search: the borrower is a harness contract that executes a generated program in the flash-loan callback (repay exact / exact-1 / over / principal / fraction, deposit as plain or error-swallowing sub-message, withdraw, collect, nested loan, fail). (a) the alphabet enumerated to depth 2 with three amount classes (several thousand programs) x four loan-size classes x native/cw20 x fee triples; (b) random programs to depth 3 inside longer histories, direct and through the vault router (incl. a second router loan in the payload). Oracle per transaction: rejected => full world snapshot unchanged; accepted => loan counter 0, ledger grew by exactly the floor fees of every completed loan, burn fees left circulation, no shares minted during a loan, balance up by >= protocol+flash fees, exact quote suffices and one unit less never, router keeps nothing and pays exactly the quote.",
+        "Adversary enumeration plus random search: the borrower is a harness contract that executes a generated program in the flash-loan callback (repay exact / exact-1 / over / principal / fraction, deposit as plain or error-swallowing sub-message, withdraw, collect, nested loan, fail). (a) the alphabet enumerated to depth 2 with three amount classes (several thousand programs) x four loan-size classes x native/cw20 x fee triples; (b) random programs to depth 3 inside longer histories, direct and through the vault router (incl. a second router loan in the payload). Oracle per transaction: rejected => full world snapshot unchanged; accepted => loan counter 0, ledger grew by exactly the floor fees of every completed loan, burn fees left circulation, no shares minted during a loan, balance up by >= protocol+flash fees, exact quote suffices and one unit less never, router keeps nothing and pays exactly the quote. A third check drives the vault router over three vaults at once: 1-3 different assets per transaction (named in one message, which this router refuses, or chained through a hand-made NextLoan in the payload, which it settles together), proceeds per asset on / around that loan's fees; accepted transactions are judged per asset (vault got exactly the quote, router holds nothing, initiator got proceeds - fees), rejected ones must leave the world unchanged.",
         "Completed loans are read off the program (all messages of a successful transaction ran); fees are recomputed by the harness. The nested-loan fee recovery is a listed known finding (signature bounds the shortfall by the nested loans' fees).",
         "fault/adversary enumeration + property-based testing of callback programs against a transaction-level oracle",
         "DESIGN.md §4 C06",
